@@ -321,7 +321,7 @@ func H_C03_DecodeNested_Unmarshaler() {
 		verifAssert2(len(u.got) == len(pl), len(u.got) == 0 || verifSameObject(u.got, s.p), "the nested decoder receives exactly the declared sub-slice")
 		verifAssertBytesEq(u.got, pl, "the nested decoder receives the payload bytes")
 		if err != nil {
-			verifAssert2(err == errC03Nested, s.d.Offset() == s.off, "a nested error is returned unchanged and the cursor does not advance")
+			verifAssert2(errors.Is(err, errC03Nested), s.d.Offset() == s.off, "a nested error is returned (possibly wrapped) and the cursor does not advance")
 		}
 	}
 	c03Post(s, err, want)
